@@ -80,6 +80,22 @@ fn limited(stack_kib: usize, timeout_s: u64, f: impl FnOnce() -> String + Send +
 
 // ---------------------------------------------------------------------------------------- pipeline
 
+/// every introspection argument given as a variable without default (so that it can be omitted, null or a value)
+const INTROSPECTION_QUERY_WITH_VARIABLES: &str = r#"
+query IntrospectionWithVariables($d: Boolean, $n: String! = "Query") {
+  __schema {
+    types {
+      name
+      fields(includeDeprecated: $d) { name args(includeDeprecated: $d) { name } }
+      enumValues(includeDeprecated: $d) { name }
+      inputFields(includeDeprecated: $d) { name }
+    }
+    directives { name args(includeDeprecated: $d) { name } }
+  }
+  __type(name: $n) { name fields(includeDeprecated: $d) { name } }
+}
+"#;
+
 const INTROSPECTION_QUERY: &str = r#"
 query IntrospectionQuery {
   __schema {
@@ -267,13 +283,26 @@ fn pipeline_body(schema_src: String, doc_src: String) -> String {
                     if !op.is_query() {
                         continue;
                     }
-                    if let Ok(vars) = coerce_variable_values(&schema, op, &JsonMap::new()) {
-                        match apollo_compiler::introspection::partial_execute(&schema, &implementers, &doc, op, &vars) {
-                            Ok(resp) => {
-                                introspected += serde_json::to_string(&resp).expect("json").len().min(1);
-                            }
-                            Err(e) => {
-                                let _ = e.message().to_string();
+                    // every variable omitted, then every variable provided as null / true / false where that coerces
+                    let mut var_maps = vec![JsonMap::new()];
+                    for json in ["null", "true", "false"] {
+                        let mut m = JsonMap::new();
+                        for v in op.variables.iter() {
+                            m.insert(v.name.as_str(), serde_json::from_str(json).expect("json literal"));
+                        }
+                        if !m.is_empty() {
+                            var_maps.push(m);
+                        }
+                    }
+                    for raw in &var_maps {
+                        if let Ok(vars) = coerce_variable_values(&schema, op, raw) {
+                            match apollo_compiler::introspection::partial_execute(&schema, &implementers, &doc, op, &vars) {
+                                Ok(resp) => {
+                                    introspected += serde_json::to_string(&resp).expect("json").len().min(1);
+                                }
+                                Err(e) => {
+                                    let _ = e.message().to_string();
+                                }
                             }
                         }
                     }
@@ -283,6 +312,7 @@ fn pipeline_body(schema_src: String, doc_src: String) -> String {
         };
         doc_valid = run_doc(&mut o, &doc_src, "doc");
         let _ = run_doc(&mut o, INTROSPECTION_QUERY, "introspection-query");
+        let _ = run_doc(&mut o, INTROSPECTION_QUERY_WITH_VARIABLES, "introspection-query-variables");
     }
     // mixed
     let mixed = format!("{schema_src}\n{doc_src}");
